@@ -472,6 +472,11 @@ def check_generic(prop, tier, cfgs, n_quick, n_thorough, sigfun, stages, level="
                 sp = Program(len(progs), ss, root, label)
                 sp.port = None
                 progs.append(sp)
+        if prop in ("C01", "C02", "C09", "C10"):
+            for label, ss in gen_mini.schema_prefix_abbreviation_family():
+                ap = Program(len(progs), ss, root, label)
+                ap.port = None
+                progs.append(ap)
         if prop in ("C01", "C02", "C03", "C09"):
             for label, ss in gen_mini.xml_named_family():
                 xp = Program(len(progs), ss, root, label)
